@@ -152,8 +152,14 @@ struct Domain {
     complete_bin: bool,
 }
 
-fn domain(l: Layout, tier: Tier) -> Domain {
+/// `c11`: the profile-independence pass executes every case twice (and every permitted overflow costs a caught
+/// panic in the checking build), so its thorough domain is thinner where the full one is most expensive: the
+/// 16-bit binary domain is V16 x B_quick and the 128-bit one B_quick x B_quick. The full thorough
+/// domains run in both builds under C01/C02/C06/C07. `VERIF_C11_FULL=1` restores them here.
+fn domain(l: Layout, tier: Tier, c11: bool) -> Domain {
     use std::sync::Arc;
+    let thin = c11 && tier == Tier::Thorough && std::env::var("VERIF_C11_FULL").is_err();
+    let btier = if thin && (l.w == 16 || l.w == 128) { Tier::Quick } else { tier };
     match l.w {
         8 => {
             let v = alpha::all_values(8);
@@ -161,9 +167,10 @@ fn domain(l: Layout, tier: Tier) -> Domain {
         }
         16 => {
             let v = alpha::all_values(16);
-            let b = alpha::boundary(l, tier);
+            let b = alpha::boundary(l, btier);
             let bin = match tier {
                 Tier::Quick => vec![(b.clone(), Arc::new(b))],
+                Tier::Thorough if thin => vec![(v.clone(), Arc::new(b))],
                 Tier::Thorough => {
                     let rest: Vec<u128> = {
                         let s: std::collections::HashSet<u128> = b.iter().cloned().collect();
@@ -176,8 +183,8 @@ fn domain(l: Layout, tier: Tier) -> Domain {
             Domain { un: v, bin, complete_un: true, complete_bin: false }
         }
         _ => {
-            let b = alpha::boundary(l, tier);
-            let mut un = b.clone();
+            let b = alpha::boundary(l, btier);
+            let mut un = alpha::boundary(l, tier);
             let seen: std::collections::HashSet<u128> = un.iter().cloned().collect();
             for x in alpha::float_runs(l, tier) {
                 if !seen.contains(&x) {
@@ -391,7 +398,7 @@ fn run_job(tab: &[Entry], job: &Job, prop: Prop, tier: Tier) -> JobOut {
     JobOut { rep, dig: dig.into_iter().chain(xdig.into_iter()).map(|h| h.finish()).collect(), returned }
 }
 
-fn build_jobs(tab: &[Entry], tier: Tier, only: Option<&str>) -> (Vec<Job>, Vec<String>) {
+fn build_jobs(tab: &[Entry], tier: Tier, only: Option<&str>, c11: bool) -> (Vec<Job>, Vec<String>) {
     let mut jobs = vec![];
     let mut notes = vec![];
     let mut complete8 = 0;
@@ -402,7 +409,7 @@ fn build_jobs(tab: &[Entry], tier: Tier, only: Option<&str>) -> (Vec<Job>, Vec<S
                 continue;
             }
         }
-        let d = domain(e.l, tier);
+        let d = domain(e.l, tier, c11);
         if d.complete_bin {
             complete8 += 1;
         }
@@ -434,7 +441,7 @@ fn cmd_run(args: &Args) {
     let t0 = std::time::Instant::now();
     let tab = table();
     assert_eq!(tab.len(), 506);
-    let (jobs, notes) = build_jobs(&tab, tier, only.as_deref());
+    let (jobs, notes) = build_jobs(&tab, tier, only.as_deref(), prop == Prop::C11);
     let results = run_jobs(&jobs, |j| run_job(&tab, j, prop, tier));
     let mut rep = Report::new("arith", &args.get("prop").unwrap(), tier.name());
     rep.notes = notes;
@@ -612,7 +619,7 @@ fn cmd_dump(args: &Args) {
     let tier = Tier::parse(&args.get("tier").unwrap_or("quick".into()));
     let tab = table();
     let e = tab.iter().find(|e| e.l == l).unwrap();
-    let d = domain(l, tier);
+    let d = domain(l, tier, true);
     let mut o = std::io::BufWriter::new(std::io::stdout().lock());
     use std::io::Write;
     if let Some(i) = SHIFT_OPS.iter().position(|n| *n == args.v[2]) {
